@@ -5,7 +5,8 @@
    The model follows the repaired code (fix: commits for C12.F12, F13, F40, F41, F42). *)
 From Coq Require Import List NArith ZArith.
 Import ListNotations.
-Require Import Base.Wire Base.PyStr C12.Model C12.Wrap C12.More C12.Fits C12.Plain C12.Total.
+Require Import Base.Wire Base.PyStr C12.Model C12.Wrap C12.More C12.Fits C12.Plain C12.Total
+  C12.Chars C12.Parser C12.Format C12.Visible C12.EndToEnd.
 
 (* ---- byteTextWrap, for every word list (the output of TextWrapper._split_chunks is an
         explicit input) and every size >= 4 ---- *)
@@ -62,13 +63,36 @@ Print Assumptions C12_more_progress.
                       Forall (fun line => line_fits k line = true) (sent ++ rev L).
    The accounting steps, each at the strength the repaired code reaches: *)
 
-(* (a) allowedLength (full since the repair of F41/F42): any prefix, target and nick, channel or
-       query: a payload within allowedLength gives a line within 512 bytes *)
-Theorem C12_line_fits : forall k p,
-  c_length k = 0%N -> nonempty (strip [1%N] p) = true ->
+(* (a) allowedLength.  Full statement: for every reply configuration (prefix/target/nick, channel or
+       query, private=/to=/notice= keywords, reply.inPrivate/withNotice), a payload within allowedLength
+       gives a line within 512 bytes.  It holds on the exact decidable domain env_ok (what _makeReply()
+       puts around the payload is covered by what reply() reserved), which contains every plain reply
+       in a channel or a query whatever the strings (repair of F41/F42) and private=True with to=; it
+       is refuted for private=True without to= in a channel and for to=<longer nick> (finding F43). *)
+Theorem C12_line_fits_on_domain : forall k p,
+  env_ok k = true -> c_length k = 0%N -> nonempty (strip [1%N] p) = true ->
   (Z.of_N (blen p) <= allowed_length k)%Z -> line_fits k (makeReply k p) = true.
-Proof. exact line_fits_full. Qed.
-Print Assumptions C12_line_fits.
+Proof. exact line_fits_on_domain. Qed.
+Print Assumptions C12_line_fits_on_domain.
+
+Theorem C12_env_ok_plain_reply : forall k,
+  c_private k = false -> c_inPrivate k = false -> c_to k = None -> env_ok k = true.
+Proof. exact env_ok_plain_reply. Qed.
+Print Assumptions C12_env_ok_plain_reply.
+
+Theorem C12_env_ok_private_to : forall k t, c_private k = true -> c_to k = Some t -> env_ok k = true.
+Proof. exact env_ok_private_to. Qed.
+Print Assumptions C12_env_ok_private_to.
+
+Theorem C12_line_fits_refuted :
+  (env_ok k_private_chan = false /\ c_length k_private_chan = 0%N /\
+   (Z.of_N (blen (room_payload k_private_chan)) <= allowed_length k_private_chan)%Z /\
+   line_fits k_private_chan (makeReply k_private_chan (room_payload k_private_chan)) = false) /\
+  (env_ok k_to_nick = false /\ c_length k_to_nick = 0%N /\
+   (Z.of_N (blen (room_payload k_to_nick)) <= allowed_length k_to_nick)%Z /\
+   line_fits k_to_nick (makeReply k_to_nick (room_payload k_to_nick)) = false).
+Proof. exact line_fits_refuted. Qed.
+Print Assumptions C12_line_fits_refuted.
 
 (* (b) the "(XX more messages)" reserve (repair of F12) covers the suffix for 1..99 pending
        messages -- every count the two-digit text provides for; a three-digit count is still over *)
@@ -88,25 +112,78 @@ Theorem C12_context_size_covers : forall c s,
 Proof. exact context_size_covers. Qed.
 Print Assumptions C12_context_size_covers.
 
-(*     ircutils.wrap: on text without formatting codes every chunk fits and the chunks spell the
-       munged text.  Partial: formatted text is covered by the differential run only, and the
-       full statement is still refuted by the colour/digit junction (F14, known finding). *)
-Theorem C12_chunk_fits_on_plain_partial : forall s (n : Z) ls,
-  no_fmt s = true -> (4 <= n)%Z -> wrap s n = Ok ls ->
-  Forall (fun c => (Z.of_nat (length (utf8 c)) <= n)%Z) ls /\ concat ls = munge s.
-Proof. exact chunk_fits_on_plain. Qed.
-Print Assumptions C12_chunk_fits_on_plain_partial.
+(* (d) ircutils.wrap on text without formatting codes (\x02 \x03 \x0f \x16 \x1f), the full statement:
+       it returns, the result is byteTextWrap's own, every chunk fits, the chunks spell the munged
+       text and none is empty *)
+Theorem C12_wrap_plain : forall s (n : Z),
+  no_fmt s = true -> has_surrogate s = false -> (4 <= n)%Z ->
+  exists ls, wrap s n = Ok ls
+             /\ byteTextWrap (split_chunks s) n = Ok ls
+             /\ Forall (fun c => (Z.of_nat (length (utf8 c)) <= n)%Z) ls
+             /\ concat ls = munge s
+             /\ (s <> [] -> Forall (fun c => c <> []) ls).
+Proof. exact wrap_plain. Qed.
+Print Assumptions C12_wrap_plain.
+
+(* (e) ircutils.wrap on formatted text.  Full statement: every chunk fits the requested length and the
+       visible text (each chunk stripped on its own) is that of the reply.  It holds on the decidable
+       domain safe_cuts (text, width): no chunk after the first starts with a digit or a comma -- i.e.
+       no cut falls inside a colour sequence or in front of text a re-opened colour prefix would
+       swallow -- for text whose only blanks are spaces; refuted outside it (F14). *)
+Theorem C12_chunk_fits_on_domain : forall s (n : Z) cF mx ls,
+  s <> [] -> munged s = true -> parse s = Ok (cF, mx) -> (Z.of_N mx <= n)%Z ->
+  safe_cuts s n = true -> wrap s n = Ok ls ->
+  Forall (fun c => (Z.of_nat (length (utf8 c)) <= n)%Z) ls.
+Proof. exact fmt_chunk_fits. Qed.
+Print Assumptions C12_chunk_fits_on_domain.
 
 Theorem C12_chunk_fits_refuted :
-  exists s ls, wrap s 12 = Ok ls /\ Exists (fun c => (12 < blen c)%N) ls.
-Proof. exact chunk_fits_refuted. Qed.
+  exists s ls, s <> [] /\ munged s = true /\ safe_cuts s 12 = false /\
+               wrap s 12 = Ok ls /\ Exists (fun c => (12 < blen c)%N) ls.
+Proof. exact chunk_fits_refuted_outside. Qed.
 Print Assumptions C12_chunk_fits_refuted.
 
-(* ---- the visible text (F14, known finding) ---- *)
+Theorem C12_visible_text_on_domain : forall s (n : Z) ls,
+  s <> [] -> munged s = true -> safe_cuts s n = true -> wrap s n = Ok ls ->
+  concat (map visible ls) = visible s.
+Proof. exact fmt_visible_text. Qed.
+Print Assumptions C12_visible_text_on_domain.
+
 Theorem C12_visible_text_refuted :
-  exists s ls, wrap s 16 = Ok ls /\ concat (map visible ls) <> visible (munge s).
-Proof. exact visible_text_refuted. Qed.
+  exists s ls, s <> [] /\ munged s = true /\ safe_cuts s 16 = false /\
+               wrap s 16 = Ok ls /\ concat (map visible ls) <> visible s.
+Proof. exact visible_text_refuted_outside. Qed.
 Print Assumptions C12_visible_text_refuted.
+
+(* ---- end to end, plain text ----
+   For every reply configuration in env_ok (every plain reply in a channel or a query whatever the
+   prefix/target/nick; private=True with to=), every mores.length/maximum/instant and Misc.mores
+   setting allowed by plain_dom (splitting on; the chunk budget between 25 bytes and the room of
+   the line -- always true for mores.length = 0 unless the hostmask leaves less than 25 bytes; at
+   most 100 chunks) and every non-empty text without \x01 \x02 \x03 \x0f \x16 \x1f:
+   the lines relayed for the command and the successive `more` commands are one per chunk, in
+   order, with the right remaining count; (a) each fits 512 bytes once prefixed and is left intact
+   by takeMsg; (b) the chunks are the text itself or spell its munged form; (c) each chunk is a
+   non-empty contiguous piece of it; the text is the reply cut to allowedLength * maximum
+   characters, and the whole reply when it is not longer. *)
+Theorem C12_reply_plain_end_to_end : forall k s0 sent L number times,
+  plain_dom k s0 = true -> reply k s0 = Ok (sent, L) -> (1 <= number)%N -> (length L <= times)%nat ->
+  let lines := sent ++ concat (mores_go times L number) in
+  let text := reply_text k s0 in
+  exists chunks,
+    lines = lines_of k chunks
+    /\ Forall (good_line k) lines
+    /\ (chunks = [text] \/ concat chunks = munge text)
+    /\ (forall c, In c chunks -> c <> [] /\ exists pre post, concat chunks = pre ++ c ++ post)
+    /\ (exists m, text = firstn m s0)
+    /\ ((Z.of_nat (length s0) <= allowed_length k * Z.of_N (c_maximum k))%Z -> text = s0).
+Proof. exact reply_plain_end_to_end. Qed.
+Print Assumptions C12_reply_plain_end_to_end.
+
+Theorem C12_reply_plain_total : forall k s0,
+  plain_dom k s0 = true -> has_surrogate s0 = false -> exists sent L, reply k s0 = Ok (sent, L).
+Proof. exact reply_plain_total. Qed.
+Print Assumptions C12_reply_plain_total.
 
 (* ---- FormatParser never raises (full since the repair of F40) ---- *)
 Theorem C12_parse_total : forall s, exists r, parse s = Ok r.
